@@ -235,6 +235,13 @@ func VF_C10_Pure(n, bad int) {
 	vf.Panics(func() { f.FormatValue(victim) })
 	vf.Assert("formatter-depth-restored-after-failure", f.GetDepth() == 0)
 	vf.Assert("formatter-same-text-after-failure", vf.StrEq(f.FormatValue(good), want))
+	// the deepest nest that is formatted in full is still formatted in full by a formatter that failed earlier
+	var deep any = int64(7)
+	for i := 0; i < f.GetMaximum(); i++ {
+		deep = col.List[any](nil).MakeFromArray([]any{deep})
+	}
+	wantDeep := cdc.Formatter().Make().FormatValue(deep)
+	vf.Assert("formatter-same-deep-text-after-failure", vf.StrEq(f.FormatValue(deep), wantDeep))
 	vf.BudgetReset()
 	vf.Reach("end")
 }
